@@ -59,7 +59,7 @@ ASSUMPTIONS = [
     "no failing reads are injected: the statement gives them no meaning; fault kinds are abandonment of a lazy result, short reads "
     "(read(n) returning fewer than n units before EOF, as pipes and sockets do) and the caller closing its stream once the call has returned",
 ]
-PROBES = ["foreign_environment_in_process", "large_document", "compound_x_stream_form", "lazy_alive_across_another_read", "match_on_empty", "query_values_view", "ctx_passed", "error_parity_case"]
+PROBES = ["foreign_environment_in_process", "large_document", "compound_x_stream_form", "lazy_alive_across_another_read", "match_on_empty", "query_values_view", "ctx_passed", "error_parity_case", "compound_operand_raises"]
 
 LEVELS = ["module", "env", "compiled"]
 METHODS = ["findall", "finditer", "match", "query"]
@@ -67,7 +67,8 @@ FORMS = ["value", "shared", "text_compact", "text_indent", "text_noascii", "text
          "trickle_text", "trickle_bin", "textio_latin1", "textio_utf16", "realfile_latin1"]
 STREAM_FORMS = FORMS[6:]
 
-_SCRATCH_ENV = jsonpath.JSONPathEnvironment()
+_SCRATCH_ENV = tripwire.register(jsonpath.JSONPathEnvironment())
+tripwire.register(jsonpath.DEFAULT_ENV)  # a constant, stateless addition to the module-level environment
 _TMP: List[str] = []
 
 
@@ -103,6 +104,10 @@ def generate(seed: int, config: str, tier: str) -> Dict[str, Any]:
         opts["p_ext"] = max(opts["p_ext"], 0.15)
     else:
         opts["p_ctx"] = 0.0
+    if rng.random() < 0.25:
+        # some filters die at evaluation time (jpsim/tripwire.py): error parity between entry points and forms
+        opts["p_trip"] = 0.25
+        opts["p_filter"] = max(opts["p_filter"], 0.5)
     foreign_step = rng.random() < 0.2
     if foreign_step:
         opts["p_str_lit"] = 0.3
@@ -311,7 +316,7 @@ def execute(spec: Dict[str, Any], ctx: Ctx) -> None:
             d.append(pad)
         ctx.count("probe.large_document")
     fctx = plan["ctx"]
-    env = jsonpath.JSONPathEnvironment()
+    env = tripwire.register(jsonpath.JSONPathEnvironment())
     texts = [qtext(q) for q in plan["queries"]]
     compiled = [env.compile(t) for t in texts]
     # references, computed in isolation before the history
@@ -323,7 +328,11 @@ def execute(spec: Dict[str, Any], ctx: Ctx) -> None:
             if q["ops"]:
                 fold = _fold(env, q, d, fctx)
                 vals = r.vals()
-                if fold != vals:
+                if isinstance(fold, tuple):
+                    # an operand raises when evaluated alone: the compound may raise too (any of its operands'
+                    # classes) or never get to evaluate that operand at all (nothing on the left to restrict)
+                    ctx.count("probe.compound_operand_raises")
+                elif fold != vals:
                     which = "C11.intersect" if "&" in q["ops"] else "C11.union"
                     raise Violation(
                         which,
@@ -360,7 +369,8 @@ def execute(spec: Dict[str, Any], ctx: Ctx) -> None:
             ctx.log.add("done", lz.cid, lz.pos)
             return False
         except Exception as e:  # noqa: BLE001
-            if type(e).__name__ != want.exc or lz.pos != len(want.ms):
+            # same class as the reference; how many matches a lazy result hands out first is not compared
+            if type(e).__name__ != want.exc:
                 fail(lz.clause, lz.desc + f" raised {type(e).__name__} at match {lz.pos}", f"raises {type(e).__name__}", want.show(), f"{lz.clause}:exc")
             ctx.log.add("raised", lz.cid, type(e).__name__)
             return False
@@ -372,6 +382,9 @@ def execute(spec: Dict[str, Any], ctx: Ctx) -> None:
             obs = item
         else:
             obs = (item[0], core.tj(item[1]))
+        if lz.pos >= len(want.ms) and want.exc:
+            lz.pos += 1  # past the point where the reference raised: only the error itself is compared
+            return True
         if lz.pos >= len(want.ms):
             fail(lz.clause, lz.desc + f" produced an extra match #{lz.pos} {core.short(obs)}", _show(obs), want.show(), f"{lz.clause}:extra")
         w = want.ms[lz.pos]
@@ -435,10 +448,7 @@ def execute(spec: Dict[str, Any], ctx: Ctx) -> None:
         args: List[Any] = []
         if fctx is not None:
             ctx.count("probe.ctx_passed")
-            if call["level"] != "compiled" and call["method"] == "query" and not call["ctx_kw"]:
-                args.append(fctx)
-            else:
-                kw["filter_context"] = fctx
+            kw["filter_context"] = fctx
         ctx.log.add("call", cid, desc, "live", len(live))
         try:
             if call["level"] == "module":
@@ -448,11 +458,30 @@ def execute(spec: Dict[str, Any], ctx: Ctx) -> None:
                 res = getattr(env, call["method"])(texts[qi], data, *args, **kw)
             else:
                 res = getattr(compiled[qi], call["method"])(data, *args, **kw)
+            it: Any = None
+            view = "iter"
+            if call["method"] in ("finditer", "query"):
+                # opening the view belongs to the call: an eager implementation may raise here
+                if call["method"] == "query":
+                    view = call["view"]
+                    if view == "values":
+                        it = iter(res.values())
+                        ctx.count("probe.query_values_view")
+                    elif view == "items":
+                        it = iter(res.items())
+                    elif view == "locations":
+                        it = iter(res.locations())
+                    else:
+                        it = iter(res)
+                else:
+                    it = iter(res)
         except Exception as e:  # noqa: BLE001
             name = type(e).__name__
-            # an eager entry point raises iff the reference raises; a lazy one may raise at call
-            # time only if the reference raises before its first match
-            ok = (name == want.all_exc) if call["method"] == "findall" else (name == want.exc and not want.ms)
+            # an entry point raises iff the reference raises, with the class find-all or find-iter gives;
+            # whether a lazy one raises at call time or at the failing match is its own business
+            ok = name in (want.all_exc, want.exc)
+            if ok and call["method"] == "match" and want.ms:
+                ok = True  # an eager match() may meet the error behind the first match
             if not ok:
                 fail(clause, desc + f" raised {name}", f"raises {name}", want.show(), f"{clause}:{call['method']}:exc:{name}")
             ctx.log.add("raised", cid, name)
@@ -487,21 +516,6 @@ def execute(spec: Dict[str, Any], ctx: Ctx) -> None:
                 fail(clause, desc, _show(got_m), _show(exp_m), f"{clause}:match")
             nonempty = nonempty or bool(want.ms)
         else:
-            view = "iter"
-            it: Any
-            if call["method"] == "query":
-                view = call["view"]
-                if view == "values":
-                    it = iter(res.values())
-                    ctx.count("probe.query_values_view")
-                elif view == "items":
-                    it = iter(res.items())
-                elif view == "locations":
-                    it = iter(res.locations())
-                else:
-                    it = iter(res)
-            else:
-                it = iter(res)
             if call["abandon_after"] is not None:
                 ctx.count("fault.abandon.configured")
             live.insert(0, _Lazy(it, view, want, call["abandon_after"], desc, clause, cid, step))
